@@ -197,7 +197,12 @@ func runProgram[T Num](c *core.Ctx, b *Backend[T], p *AProg, sides []*realSide[T
 					src = side.views[op.Src]
 				} else {
 					buf := append([]T{}, srcSh.st.data...)
-					src = b.FromSlice(buf, cpInts(srcSh.shape))
+					if op.SrcRoot != nil {
+						src = b.FromSlice(buf, cpInts(op.SrcRoot)).Slice(cpInts(op.SrcLoc), cpInts(srcSh.shape), cpInts(op.SrcStep))
+						c.Tag("source:view-of-another-array")
+					} else {
+						src = b.FromSlice(buf, cpInts(srcSh.shape))
+					}
 				}
 			}
 			ok := c.Guard(o.prop+"panic", model, func() {
